@@ -88,6 +88,8 @@ def _ax_log(v, args, others):
     _assume(v.t * y.t >= y.t - 1, "log(y) >= 1 - 1/y")
     _assume(z3.And(z3.Implies(y.t > 1, v.t > 0), z3.Implies(y.t < 1, v.t < 0), z3.Implies(y.t == 1, v.t == 0)),
             "sign(log(y)) = sign(y - 1)")
+    _assume(z3.And(z3.Implies(y.t >= 1, v.t * (y.t + 1) >= 2 * (y.t - 1)), z3.Implies(y.t <= 1, v.t * (y.t + 1) <= 2 * (y.t - 1))),
+            "log(y) >= 2(y-1)/(y+1) for y >= 1, <= for 0 < y <= 1")
     for oname, oargs in others:
         o = real_var(oname)
         w = oargs[0]
@@ -110,7 +112,39 @@ def exp(x):
     if inner is not None:
         AXIOMS_USED.add("exp(log(y)) = y")
         return inner
+    combo = _log_combo(x)
+    if combo is not None:
+        # exp(c0 + sum k_i log y_i) = exp(c0) * prod y_i^k_i   (exact identity, k_i integers)
+        AXIOMS_USED.add("exp(c0 + sum k_i log(y_i)) = exp(c0) * prod y_i^k_i")
+        c0, terms = combo
+        r = lift(1) if c0 == 0 else exp(lift(c0))
+        for y, k in terms:
+            r = r * (y ** k)
+        return r
     return app("exp", x)
+
+
+def _log_combo(x):
+    """x == c0 + sum k_i * log-app_i with integer k_i (and constant denominator)?"""
+    if not core.p_is_const(x.d):
+        return None
+    dc = core.p_cval(x.d)
+    c0 = 0
+    terms = []
+    for mono, coef in x.n.items():
+        coef = coef / dc
+        if not mono:
+            c0 = coef
+            continue
+        if len(mono) != 1 or mono[0][1] != 1:
+            return None
+        ent = core._ufapps.get(mono[0][0])
+        if not ent or ent[0] != "log" or coef.denominator != 1:
+            return None
+        terms.append((ent[1][0], int(coef)))
+    if not terms:
+        return None
+    return c0, terms
 
 
 def log(y):
@@ -127,7 +161,37 @@ def log(y):
     if inner is not None:
         AXIOMS_USED.add("log(exp(x)) = x")
         return inner
+    mono = _exp_monomial(y)
+    if mono is not None:
+        # log(k * prod exp(x_i)^e_i) = log k + sum e_i x_i   (exact identity)
+        AXIOMS_USED.add("log(k * prod exp(x_i)^e_i) = log k + sum e_i * x_i")
+        k, terms = mono
+        r = lift(0) if k == 1 else log(lift(k))
+        for x, e in terms:
+            r = r + e * x
+        return r
     return app("log", y)
+
+
+def _exp_monomial(y):
+    """y == k * prod(exp-apps ^ integer exponents) (numerator and denominator single monomials)?"""
+    if len(y.n) != 1 or len(y.d) != 1:
+        return None
+    (mn, cn), = y.n.items()
+    (md, cd), = y.d.items()
+    terms = []
+    for mono, sign in ((mn, 1), (md, -1)):
+        for v, e in mono:
+            ent = core._ufapps.get(v)
+            if not ent or ent[0] != "exp":
+                return None
+            terms.append((ent[1][0], sign * e))
+    if not terms:
+        return None
+    k = cn / cd
+    if k <= 0:
+        return None
+    return k, terms
 
 
 # ---- sqrt / real powers ----------------------------------------------------------------------
@@ -161,6 +225,13 @@ def _ax_pow(v, args, others):
         _assume(z3.And(z3.Implies(x.t > 1, v.t > 1), z3.Implies(x.t < 1, v.t < 1)), "x^k vs 1 (k>0)")
     elif kc < 0:
         _assume(z3.And(z3.Implies(x.t > 1, v.t < 1), z3.Implies(x.t < 1, v.t > 1)), "x^k vs 1 (k<0)")
+    from fractions import Fraction as _F
+    if kc > 0 and (1 / _F(kc)).denominator == 1 and 1 / _F(kc) <= 4:
+        P = int(1 / _F(kc))
+        r = v.t
+        for _ in range(P - 1):
+            r = r * v.t
+        _assume(r == x.t, "(x^(1/P))^P = x")
     for oname, oargs in others:
         ox, ok = oargs
         if ok.const_value() != kc:
@@ -183,6 +254,18 @@ def power(x, k):
         k = k.const_value()
     from fractions import Fraction
     kf = Fraction(k)
+    if abs(kf - Fraction(1, 3)) < Fraction(1, 10 ** 12):
+        kf = Fraction(1, 3)          # 1/3 is not a binary fraction: the source's (1 / Passes) means the exact root
+    if kf.numerator == 1 and kf.denominator > 1 and not x.is_const():
+        mono = _exp_monomial(x)
+        if mono is not None and all(e % kf.denominator == 0 for _, e in mono[1]):
+            rk = _exact_root(mono[0], kf.denominator)
+            if rk is not None and bool(x > 0):
+                AXIOMS_USED.add("(k^P * prod exp(x_i)^(P e_i))^(1/P) = k * prod exp(x_i)^e_i")
+                r = lift(rk)
+                for xi, e in mono[1]:
+                    r = r * (exp(xi) ** (e // kf.denominator))
+                return r
     if kf == Fraction(1, 2):
         return sqrt(x)
     if x.is_const() and (core.EX is None or getattr(core.EX, "concrete_uf", False)):
@@ -191,7 +274,33 @@ def power(x, k):
         if bool(x == 0) and kf > 0:
             return lift(0)
         raise ValueError("negative base with fractional exponent")
+    if kf.numerator == 1 and kf.denominator > 1:
+        P = kf.denominator
+        mono = _exp_monomial(x)
+        if mono is not None and all(e % P == 0 for _, e in mono[1]):
+            k0, terms = mono
+            rk = _exact_root(k0, P)
+            if rk is not None:
+                AXIOMS_USED.add("(k^P * prod exp(x_i)^(P e_i))^(1/P) = k * prod exp(x_i)^e_i")
+                r = lift(rk)
+                for xi, e in terms:
+                    r = r * (exp(xi) ** (e // P))
+                return r
     return app("pow", x, lift(kf))
+
+
+def _exact_root(k, P):
+    from fractions import Fraction
+    def iroot(n):
+        r = round(n ** (1.0 / P))
+        for c in (r - 1, r, r + 1):
+            if c >= 0 and c ** P == n:
+                return c
+        return None
+    a, b = iroot(k.numerator), iroot(k.denominator)
+    if a is None or b is None:
+        return None
+    return Fraction(a, b)
 
 
 def rpower(base, e):
